@@ -83,6 +83,7 @@ func scalar(it *simdjson.Iter, t simdjson.Type) (*ref.Value, error) {
 		if s != string(b) {
 			return nil, fmt.Errorf("String() %q != StringBytes() %q", s, b)
 		}
+		Hold("Iter.String", s)
 		return &ref.Value{K: ref.String, S: append([]byte{}, b...)}, nil
 	}
 	return nil, fmt.Errorf("unexpected scalar type %v", t)
@@ -420,6 +421,7 @@ func advValue(it *simdjson.Iter, t simdjson.Type, steps *int, bound int) (*ref.V
 				var sname string
 				sname, et, err = top.obj.NextElement(&elem)
 				name = []byte(sname)
+				Hold("Object.NextElement", sname)
 			}
 			if err != nil {
 				return nil, err
@@ -464,7 +466,7 @@ func advValue(it *simdjson.Iter, t simdjson.Type, steps *int, bound int) (*ref.V
 func IterCB(pj *simdjson.ParsedJson) (roots []*ref.Value, err error) {
 	err = Guard(func() error {
 		calls := 0
-		return pj.ForEach(func(i simdjson.Iter) error {
+		err := pj.ForEach(func(i simdjson.Iter) error {
 			// one callback per root: more callbacks than tape entries means ForEach is cycling
 			if calls++; calls > len(pj.Tape)+2 {
 				return ErrSteps
@@ -476,6 +478,31 @@ func IterCB(pj *simdjson.ParsedJson) (roots []*ref.Value, err error) {
 			roots = append(roots, v)
 			return nil
 		})
+		if err != nil {
+			return err
+		}
+		// the same through Root + AdvanceIter: each root iterator yields its one value, then the end
+		it := pj.Iter()
+		for n := 0; it.Advance() == simdjson.TypeRoot; n++ {
+			if n >= len(roots) {
+				return fmt.Errorf("Advance finds more roots than ForEach (%d)", len(roots))
+			}
+			ct, ri, err := it.Root(nil)
+			if err != nil {
+				return err
+			}
+			if ct == simdjson.TypeObject || ct == simdjson.TypeArray {
+				continue // AdvanceIter would step into the container
+			}
+			// Root() leaves the iterator on the scalar (e.g. a container replaced by null, followed
+			// by deleted entries up to the end of the root's tape): nothing follows
+			var elem simdjson.Iter
+			t2, err := ri.AdvanceIter(&elem)
+			if err != nil || t2 != simdjson.TypeNone {
+				return fmt.Errorf("AdvanceIter past the scalar value of root %d gives (%v, %v)", n, t2, err)
+			}
+		}
+		return nil
 	})
 	return
 }
@@ -552,11 +579,20 @@ func iterValue(it *simdjson.Iter, t simdjson.Type, depth int) (*ref.Value, error
 			if et == simdjson.TypeNone {
 				break
 			}
+			after := elem
 			c, e := iterValue(&elem, et, depth+1)
 			if e != nil {
 				return nil, e
 			}
 			v.A = append(v.A, c)
+			// the element iterator's scope is this one value (possibly followed by deleted
+			// entries up to the very end of its tape): stepping on must report the end, not an error
+			if et != simdjson.TypeObject && et != simdjson.TypeArray {
+				var tmp simdjson.Iter
+				if t2, err := after.AdvanceIter(&tmp); err != nil || t2 != simdjson.TypeNone {
+					return nil, fmt.Errorf("AdvanceIter past the only (scalar) value of an element iterator gives (%v, %v)", t2, err)
+				}
+			}
 		}
 		return v, nil
 	case simdjson.TypeNone, simdjson.TypeRoot:
@@ -629,6 +665,7 @@ func elemsValue(it *simdjson.Iter, t simdjson.Type, pool *elemPool, depth int) (
 				return nil, err
 			}
 			v.Keys = append(v.Keys, []byte(e.Name))
+			Hold("Element.Name (Object.Parse)", e.Name)
 			v.Vals = append(v.Vals, c)
 			last[e.Name] = idx
 		}
@@ -725,6 +762,7 @@ func CompareIface(v *ref.Value, x interface{}) string {
 			if !ok || s != string(p.v.S) {
 				return fmt.Sprintf("%s: want string %q, got %T", p.path, clip(p.v.S), p.x)
 			}
+			Hold("Interface/Map (value)", s)
 		case ref.Array:
 			a, ok := p.x.([]interface{})
 			if !ok || len(a) != len(p.v.A) {
@@ -744,6 +782,9 @@ func CompareIface(v *ref.Value, x interface{}) string {
 			}
 			if len(m) != len(last) {
 				return fmt.Sprintf("%s: want %d distinct keys, got %d", p.path, len(last), len(m))
+			}
+			for k := range m {
+				Hold("Interface/Map (key)", k)
 			}
 			for k, rv := range last {
 				xv, ok := m[k]
